@@ -1,0 +1,7 @@
+// +build verif
+
+package stackinit
+
+// Under the verif tag no TAP device is created at import time; the harness
+// builds stack.Pstack itself over a simulated link.
+const verifSkipInit = true
